@@ -32,7 +32,7 @@ CHECKS = {
          "Sequential: every history of prepare / clone / drop / gc / manual despawn / reparent / leaving a cobweb system command on the world's command queue (it then runs in the middle of whichever operation flushes the world, possibly a collection) over 3 entities and <= 4 live clones is explored to the fixed point of the reachable (reference-model state, observed liveness, pending-signal count) set (about 25k states with the parametric burst operation (300 entities; thorough also 3000), depth 13), each transition re-executed on the real AutoDespawner / garbage_collect_entities in a fresh App and compared with a counter model (never despawned while a clone exists, despawned with descendants by the first gc after the last drop, exactly one signal per last drop, gc idempotent). Concurrent: loom explores all interleavings (complete DPOR for three 2-worker scenarios; preemption bound 6 for two larger ones in the thorough tier) of clone drops on worker threads against garbage collection on the main thread, on the real source file compiled against loom.",
          "loom models std::sync::Arc; crossbeam's channel is replaced by a linearizable FIFO on loom primitives; if auto_despawn.rs stops compiling stand-alone the loom leg is skipped (reported in the evidence), never turned into a verdict.", "DESIGN.md 5 C10"),
  "C16": ("cobweb-mc", "model_checking", "explicit-state BFS over histories of the real crate against a reference model",
-         "All histories (depth 5 quick, 8 thorough) of add / remove-subset / remove-bundle-spanning-both-entities / fire / despawn / manual run over one WorldReactor and two EntityWorldReactors with two triggers each and two entities, plus a second WorldReactor registered with starting triggers before the plugin is added and a plain reactor added with App::add_reactor, a third with type-wide component triggers and a fourth with any_entity_event of the event type the first takes as a broadcast; a reference model predicts the exact multiset of runs, the local data each run exposes (as modified by earlier runs), presence of the local-data component on every entity after every step, and that the three reactor systems are never despawned or duplicated.",
+         "All histories (depth 5 quick, 8 thorough) of add / remove-subset / remove-bundle-spanning-both-entities / fire / despawn / manual run over one WorldReactor and two EntityWorldReactors with two triggers each and two entities, plus a second WorldReactor registered with starting triggers before the plugin is added and a plain reactor added with App::add_reactor, a third with type-wide component triggers a fourth with any_entity_event of the event type the first takes as a broadcast and a fifth with despawn triggers; a reference model predicts the exact multiset of runs, the local data each run exposes (as modified by earlier runs), presence of the local-data component on every entity after every step, and that the three reactor systems are never despawned or duplicated.",
          "Bounded depth; registration multiplicity per trigger capped at 2; states are merged only if the reference-model state AND the implementation's registration tables agree.", "DESIGN.md 5 C16"),
  "C17": ("cobweb-mc", "model_checking", "explicit-state BFS over call sequences of the real crate against a reference map",
          "All sequences (depth 3 quick, 5 thorough) of calls through syscall / named_syscall / spawned_syscall over 15 targets (ordinary systems f and g - g takes its Commands inside a ParamSet -, a unit-output system h called directly and through Commands::syscall, an exclusive system x, a self-despawning spawned system, syscall_once; two names; three spawned ids; a missing id), each optionally with a chain of nested calls (2 levels quick, 3 thorough) made from the commands the enclosing call queues; a reference map key -> (counter, change-detection cursor) predicts every run, its Local counter, the number of Added<Marker> entities it sees, input, output, command application before return, and Err-without-run for missing / running spawned systems.",
